@@ -16,8 +16,9 @@ PAGE = 65536
 LOADS = [n for n in sorted(OPS) if ".load" in n and "atomic" not in n]
 STORES = [n for n in sorted(OPS) if ".store" in n and "atomic" not in n]
 OFFS = [0, 5, 65531]
-SEG0 = [0xA0 + i for i in range(16)]
-SEG1 = [0x11 * (i + 1) for i in range(9)]
+# bytes that need care when a translator writes segments as C text: quotes, backslashes, trigraph sequences, NUL, high bytes
+SEG0 = [0xA0 + i for i in range(16)] + [0x3F, 0x3F, 0x3D, 0x3F, 0x3F, 0x2F, 0x22, 0x5C, 0x00, 0x3F, 0x3F, 0x28, 0x0A, 0x25, 0x73]
+SEG1 = [0x11 * (i + 1) for i in range(9)] + [0x3F, 0x3F, 0x27, 0x3F, 0x3F, 0x21, 0xFF, 0x30]
 
 
 def arg(t, v):
@@ -25,6 +26,7 @@ def arg(t, v):
 
 
 def build_module(maxpages, memimport=False, minpages=1, shared=False):
+    # (SEG0 / SEG1 contain '?' sequences that a C compiler with trigraph replacement would rewrite inside a string literal)
     types, funcs, exports = [], [], []
 
     def ty(p, r):
@@ -219,9 +221,18 @@ def main():
     items += wasmgen.programs("mem", 60 if tier == "quick" else 1500, SEED, args_per_prog=4, stats=gst)
     # the second build keeps the data segments in an external blob (memory.init must find its bytes there)
     builds = [{"name": "gcc-O1", "cc": "gcc", "cflags": ("-O1",)},
-              {"name": "gcc-O1-gnu-ld", "cc": "gcc", "cflags": ("-O1",), "w2c2_opts": ("-m", "-d", "gnu-ld")}]
+              {"name": "gcc-O1-gnu-ld", "cc": "gcc", "cflags": ("-O1",), "w2c2_opts": ("-m", "-d", "gnu-ld")},
+              # trigraph replacement on (as with -std=c89/c99/c11 or -ansi)
+              {"name": "gcc-O1-trigraphs", "cc": "gcc", "cflags": ("-O1", "-trigraphs")}]
     if tier != "quick":
         builds.append({"name": "clang-O2", "cc": "clang", "cflags": ("-O2",)})
+    # per-instance segment state: one instance drops a segment, another instance of the same module still initialises from it
+    two = build_module(3)
+    INSTOP = {"op": "instantiate", "binds": {"mem": 0, "table": 0, "globals": []}}
+    items.append({"id": "twoinst", "module": two,
+                  "script": [INSTOP, INSTOP] + [{"op": "call", "inst": i_, "export": e_, "args": a_} for i_, e_, a_ in
+                                                ((1, "drop1", []), (2, "init1", [arg("i32", 200), arg("i32", 1), arg("i32", 5)]), (1, "init1", [arg("i32", 100), arg("i32", 0), arg("i32", 0)]),
+                                                 (2, "drop0", []), (1, "init0", [arg("i32", 300), arg("i32", 2), arg("i32", 9)]), (2, "init1", [arg("i32", 400), arg("i32", 0), arg("i32", 9)]))]})
     st, exp = machine.replay(v, items, builds, sigfn=sig)
     wd2 = common.scratch("c05af-")
     try:
